@@ -27,6 +27,8 @@ mod call {
 	pub fn rw_scoped_try_read<'a, K: crate::Keyable>(m: &'a RW, key: K, f: impl Fn(&'a u8) -> VR<u8>) -> VR<Result<u8, K>> { m.d_scoped_try_read(key, f) }
 	pub fn pz_scoped_lock<'a>(p: &'a Poisonable<M>, key: impl crate::Keyable, f: impl Fn(crate::poisonable::PoisonResult<&'a mut u8>) -> VR<u8>) -> VR<u8> { p.d_scoped_lock(key, f) }
 	pub fn pz_scoped_read<'a>(p: &'a Poisonable<RW>, key: impl crate::Keyable, f: impl Fn(crate::poisonable::PoisonResult<&'a u8>) -> VR<u8>) -> VR<u8> { p.d_scoped_read(key, f) }
+	pub fn pz_scoped_try_read<'a, K: crate::Keyable>(p: &'a Poisonable<RW>, key: K, f: impl Fn(crate::poisonable::PoisonResult<&'a u8>) -> VR<u8>) -> VR<Result<u8, K>> { p.d_scoped_try_read(key, f) }
+	pub fn pz_scoped_try_lock<'a, K: crate::Keyable>(p: &'a Poisonable<RW>, key: K, f: impl Fn(crate::poisonable::PoisonResult<&'a mut u8>) -> VR<u8>) -> VR<Result<u8, K>> { p.d_scoped_try_lock(key, f) }
 }
 #[cfg(test)]
 mod call {
@@ -43,6 +45,8 @@ mod call {
 	pub fn rw_scoped_try_read<'a, K: crate::Keyable>(m: &'a RW, key: K, f: impl Fn(&'a u8) -> VR<u8>) -> VR<Result<u8, K>> { real(|| m.scoped_try_read(key, |d| un(f(d)))) }
 	pub fn pz_scoped_lock<'a>(p: &'a Poisonable<M>, key: impl crate::Keyable, f: impl Fn(crate::poisonable::PoisonResult<&'a mut u8>) -> VR<u8>) -> VR<u8> { real(|| p.scoped_lock(key, |d| un(f(d)))) }
 	pub fn pz_scoped_read<'a>(p: &'a Poisonable<RW>, key: impl crate::Keyable, f: impl Fn(crate::poisonable::PoisonResult<&'a u8>) -> VR<u8>) -> VR<u8> { real(|| p.scoped_read(key, |d| un(f(d)))) }
+	pub fn pz_scoped_try_read<'a, K: crate::Keyable>(p: &'a Poisonable<RW>, key: K, f: impl Fn(crate::poisonable::PoisonResult<&'a u8>) -> VR<u8>) -> VR<Result<u8, K>> { real(|| p.scoped_try_read(key, |d| un(f(d)))) }
+	pub fn pz_scoped_try_lock<'a, K: crate::Keyable>(p: &'a Poisonable<RW>, key: K, f: impl Fn(crate::poisonable::PoisonResult<&'a mut u8>) -> VR<u8>) -> VR<Result<u8, K>> { real(|| p.scoped_try_lock(key, |d| un(f(d)))) }
 }
 
 dharness! {
@@ -154,6 +158,35 @@ fn dia_q_user_poisonable_scoped_read() {
 	assert!(!pz.is_poisoned() || panics, "C10_executions_without_panics_never_poison");
 	kani::cover!(panics, "panic");
 	kani::cover!(!panics, "clean");
+}}
+
+dharness! {
+fn dia_q_user_poisonable_scoped_try() {
+	let pz = Poisonable::new(new_rw(0, 3));
+	let s = rraw(pp::inner(&pz));
+	s.other.set(any_other_rw());
+	let pre = s.snap();
+	let panics: bool = kani::any();
+	let write: bool = kani::any();
+	let calls = Cell::new(0u8);
+	let mut key = ThreadKey::get().unwrap();
+	let r: VR<Option<u8>> = if write {
+		call::pz_scoped_try_lock(&pz, &mut key, |_d| { calls.set(calls.get() + 1); assert!(s.mine.get() == EXCL, "C02_closure_runs_only_while_held_exclusively"); user(panics) }).map(|r| r.ok())
+	} else {
+		call::pz_scoped_try_read(&pz, &mut key, |_d| { calls.set(calls.get() + 1); assert!(s.mine.get() == 1, "C02_closure_runs_only_while_held_shared"); user(panics) }).map(|r| r.ok())
+	};
+	let ran = calls.get() == 1;
+	assert!(r == if ran { user(panics).map(Some) } else { Ok(None) }, "C11_user_panic_propagates_to_the_caller_and_nothing_else_does");
+	assert!(w().held == 0 && s.balanced_and_free() && s.snap() == pre, "C11_every_lock_released_exactly_once_after_a_user_panic");
+	assert!(key_flag(), "C11_key_usable_or_obtainable_again_after_a_user_panic");
+	if write {
+		assert!(pz.is_poisoned() == (ran && panics), "C10_poisoned_iff_a_panic_unwound_during_an_exclusive_hold");
+	} else {
+		assert!(!pz.is_poisoned() || (ran && panics), "C10_executions_without_panics_never_poison");
+	}
+	kani::cover!(ran && panics && write, "panic_in_try_lock");
+	kani::cover!(ran && panics && !write, "panic_in_try_read");
+	kani::cover!(!ran, "would_block");
 }}
 
 // ---- a Poisonable inside a collection, panic inside the collection's scoped closure (finding P1) ----
